@@ -155,10 +155,14 @@ type env struct {
 	prevAvail                         []int  // the versions the spec held after the previous step
 	savedHash                         []byte // what the last successful SaveVersion returned, and for which version
 	savedVer                          int
-	shapePrev                         map[string]innerRec
-	shapePrevVer                      int
-	leftMerges                        int
-	adopted, replayProofs, proofsOK   int
+	// stepwise-prune pattern (vacuity requirement of C30): a saved version holding a single key, then an unchanged
+	// version, then a version with more keys, then two consecutive prunes that drop one version each
+	patStage, pruneRun, stepwisePatterns int
+	patPrev                              []int
+	shapePrev                            map[string]innerRec
+	shapePrevVer                         int
+	leftMerges                           int
+	adopted, replayProofs, proofsOK      int
 
 	tainted     bool
 	taintOnDisk bool // ... and a SaveVersion wrote the stale fast nodes into the DB
@@ -964,6 +968,7 @@ func (e *env) check(s mbt.Step) *failure {
 	}
 	poisoned, _ := st["poisoned"].(bool)
 	w := ints(st["w"])
+	e.trackPattern(act, s.Str("reply"), w, avail)
 	if e.light {
 		return nil
 	}
@@ -1065,6 +1070,32 @@ func (e *env) check(s mbt.Step) *failure {
 		}
 	}
 	return nil
+}
+
+func (e *env) trackPattern(act, reply string, w, avail []int) {
+	switch {
+	case act == "SaveVersion" && reply == "ok":
+		size := len(present(w))
+		same := e.patPrev != nil && fmt.Sprint(e.patPrev) == fmt.Sprint(w)
+		switch {
+		case e.patStage >= 1 && same && size == 1:
+			e.patStage = 2 // an unchanged version after the single-leaf one
+		case e.patStage == 2 && size > 1:
+			e.patStage = 3 // growth
+		case e.patStage < 2 && size == 1:
+			e.patStage = 1
+		}
+		e.patPrev = append([]int(nil), w...)
+		e.pruneRun = 0
+	case act == "Prune" && reply == "ok" && len(e.prevAvail) == len(avail)+1:
+		e.pruneRun++
+		if e.pruneRun == 2 && e.patStage == 3 {
+			e.stepwisePatterns++
+		}
+	case act == "Prune" || act == "Finish" || act == "Get" || act == "Has" || act == "Iter" || act == "ByIndex" || act == "WithIndex" || act == "Size" || act == "GetVersioned":
+	default:
+		e.pruneRun = 0
+	}
 }
 
 // afterSave: after a successful SaveVersion the new version is read through a brand-new handle on the same DB: it
@@ -1256,7 +1287,7 @@ func main() {
 	}
 	var mu sync.Mutex
 	reported := map[string]int{}
-	var replays, okc, steps, flaky, states, drift, adopted, replayProofs, proofsOK, leftMerges int64
+	var replays, okc, steps, flaky, states, drift, adopted, replayProofs, proofsOK, leftMerges, patterns int64
 	heights := map[int]int{}
 	var wg sync.WaitGroup
 	nw := runtime.NumCPU()
@@ -1279,6 +1310,7 @@ func main() {
 					heights[e.maxH]++
 					drift += int64(e.drift)
 					leftMerges += int64(e.leftMerges)
+					patterns += int64(e.stepwisePatterns)
 					adopted += int64(e.adopted)
 					replayProofs += int64(e.replayProofs)
 					proofsOK += int64(e.proofsOK)
@@ -1321,7 +1353,7 @@ func main() {
 		mbt.Sample(brief(behs[i]))
 	}
 	mbt.Summary(map[string]any{"behaviours": len(behs), "replays": replays, "replays_ok": okc, "steps": steps, "flaky": flaky, "states_compared": states, "max_height_histogram": fmt.Sprint(heights), "iavl_prune_refused_after_restart": drift,
-		"inner_merges_into_untouched_left": leftMerges, "replays_saved_idempotently": adopted, "proofs_through_replayed_nodes": replayProofs, "version_proofs_verified": proofsOK})
+		"stepwise_prune_patterns": patterns, "inner_merges_into_untouched_left": leftMerges, "replays_saved_idempotently": adopted, "proofs_through_replayed_nodes": replayProofs, "version_proofs_verified": proofsOK})
 	mbt.Flush()
 }
 
